@@ -22,3 +22,31 @@ func VerifLimiterHas(s *LimiterStore, key uint64) bool {
 	_, ok := s.limiters[key]
 	return ok
 }
+
+// VerifLimiterSpend drains the token bucket of key's limiter the way the
+// middleware does (rl.Allow() per query) until it refuses; lastSeen is not
+// touched. Returns the number of tokens taken. Accessor only.
+func VerifLimiterSpend(s *LimiterStore, key uint64) int {
+	s.mu.RLock()
+	tl, ok := s.limiters[key]
+	s.mu.RUnlock()
+	if !ok {
+		return 0
+	}
+	n := 0
+	for n < 1<<16 && tl.limiter.rl.Allow() {
+		n++
+	}
+	return n
+}
+
+// VerifLimiterSetCookie stores a server cookie on key's limiter as
+// ServeDNS does after a cookie round trip. Accessor only.
+func VerifLimiterSetCookie(s *LimiterStore, key uint64, cookie string) {
+	s.mu.RLock()
+	tl, ok := s.limiters[key]
+	s.mu.RUnlock()
+	if ok {
+		tl.limiter.cookie.Store(cookie)
+	}
+}
